@@ -60,6 +60,8 @@ type treeGen struct {
 	// watchBias: about a third of the leaves are watch probes (concurrent cases: is a reset ever
 	// run while a verifier below martianhttp.Modifier / a fifo.Group is being evaluated?)
 	watchBias bool
+	// qsBias: a third of the leaves are querystring verifiers (malformed-input cases)
+	qsBias bool
 }
 
 func (g *treeGen) scope(n *node) string {
@@ -102,6 +104,9 @@ func (g *treeGen) leaf() *node {
 	x := r.Intn(21)
 	if g.watchBias && r.Chance(1, 3) {
 		x = 20
+	}
+	if g.qsBias && r.Chance(1, 3) {
+		x = 12
 	}
 	switch x {
 	case 0, 1, 2:
@@ -253,6 +258,102 @@ func genCase(r *core.Rand, conc bool) []string {
 	return ops
 }
 
+// Malformed and odd inputs: what a client can send but a well-behaved one would not. The model's domain
+// excludes them (the driver answers out-of-model from the first such exchange on), the ledger oracle does
+// not: one evaluation, met or unmet, yields at most one error whatever the input looks like.
+var (
+	badQueries = []string{"x=1;y=2", "k=v;j=1", "j=1;k=v", "bad=%zz", "k=%zz", "%zz=1", "k=v&bad=%zz", "k=w&x=1;y=2", "bad=%zz&k=v",
+		"k=%76", "k=a+b", "=v", "=", "k=v&=x", "%", "k=%", "k=v&%", ";", "k;", "k=v;", "j=%4", "k=%zz&k=v", "z=1&bad=%", "k=w;k=v"}
+	oddValues = []string{"1, 2", " 1", "1 ", "a,b", "\xe9", "1\t", "", "0"}
+	oddPaths  = []string{"/a b", "/%41", "//x", "/x/", "/x;p=1", "/\xe9"}
+)
+
+func genMsgMal(r *core.Rand, id int) *msg {
+	m := genMsg(r, id)
+	if r.Chance(1, 2) {
+		m.qry = pick(r, badQueries)
+		core.Count("malformed:query")
+	}
+	if r.Chance(1, 4) {
+		h := &m.reqH
+		if r.Bool() {
+			h = &m.resH
+		}
+		ent := []string{pick(r, []string{"X-C", "X-A", "X-B"}), pick(r, oddValues)}
+		if r.Chance(1, 3) {
+			ent = append(ent, pick(r, oddValues))
+		}
+		replaced := false
+		for i, e := range *h {
+			if e[0] == ent[0] {
+				(*h)[i], replaced = ent, true
+			}
+		}
+		if !replaced {
+			*h = append(*h, ent)
+		}
+		core.Count("malformed:header-value")
+	}
+	if r.Chance(1, 6) {
+		m.path = pick(r, oddPaths)
+		core.Count("malformed:path")
+	}
+	return m
+}
+
+func genCaseMal(r *core.Rand) []string {
+	g := &treeGen{r: r, qsBias: true}
+	n := g.node(0)
+	if n.typ == "L" {
+		k := &node{typ: "G", scope: "d", agg: r.Bool()}
+		for i := 0; i < 3; i++ {
+			k.kids = append(k.kids, g.node(1))
+		}
+		n = k
+	}
+	ops := []string{treeOp(r, n)}
+	cnt := r.Range(6, 24)
+	for i := 0; i < cnt; i++ {
+		switch x := r.Intn(100); {
+		case x < 70:
+			ops = append(ops, genMsgMal(r, i).op())
+		case x < 88:
+			ops = append(ops, "q")
+		default:
+			ops = append(ops, "r")
+		}
+	}
+	return append(ops, "q", "r", "q")
+}
+
+// Long histories between resets: n exchanges that fail the same verifiers; per-verifier counts and
+// flattened totals around the given size. Reports are compared by count and hash (op qh).
+func genLong(r *core.Rand, total int) []string {
+	mk := func(method string, status int, id int) *msg {
+		return &msg{method: method, scheme: "http", host: "a.example", path: "/x", frag: "m" + strconv.Itoa(id), id: id, status: status}
+	}
+	tb := func(n int, m *msg) string { return "tb " + strconv.Itoa(n) + " " + strings.TrimPrefix(m.op(), "t ") }
+	leaf := func(kind string, args ...string) *node { return &node{typ: "L", scope: "d", leaf: kind, args: args} }
+	var ops []string
+	switch r.Intn(3) {
+	case 0: // k verifiers in a group share the total
+		k := r.Range(2, 4)
+		g := &node{typ: "G", scope: "d", agg: r.Bool()}
+		for i := 0; i < k; i++ {
+			g.kids = append(g.kids, leaf("failure", "L"+strconv.Itoa(i)))
+		}
+		ops = []string{treeOp(r, g), tb(total/k+1, mk("GET", 200, 0)), "qh"}
+	case 1: // one verifier alone
+		ops = []string{treeOp(r, leaf("failure", "L0")), tb(total+r.Range(1, 40), mk("GET", 200, 0)), "qh"}
+	default: // both branches of a filter, request and response side
+		f := &node{typ: "F", scope: "d", cond: "method", args: []string{"GET"}, kids: []*node{leaf("status", "404"), leaf("header", "X-A", "1")}}
+		a := total/3 + 1
+		ops = []string{treeOp(r, f), tb(a, mk("GET", 200, 0)), "qh", tb(a, mk("POST", 200, a)), "qh"}
+	}
+	core.Count("long-history:cases")
+	return append(ops, "r", "qh")
+}
+
 // genE2E: one end-to-end case (see e2e.go): everything is a real HTTP request through a real proxy.
 func genE2E(r *core.Rand) []string {
 	ops := []string{"tree e " + strings.Join(genTree(r).tokens(), " ")}
@@ -311,6 +412,19 @@ func (P) Gen(r *core.Rand, tier string, emit func([]string)) {
 	}
 	for i := 0; i < nE2E; i++ {
 		emit(genE2E(r))
+	}
+	nMal, longs := 120, []int{13000}
+	if tier == "thorough" {
+		nMal, longs = 3000, []int{10000, 13000, 16384, 20000, 32768, 65536}
+	}
+	for i := 0; i < nMal; i++ {
+		emit(genCaseMal(r))
+	}
+	for _, t := range longs {
+		emit(genLong(r, t))
+	}
+	if tier != "thorough" {
+		emit(genLong(r, 10000)) // the boundary itself, a second shape
 	}
 	for i := 0; i < nURL; i++ {
 		var ops []string
